@@ -84,7 +84,7 @@ struct Ctx {
     std::deque<MonoV> monos; std::map<MonoV,id_t> mono_hc;
     std::deque<PolyV> polys; std::map<std::vector<std::pair<id_t,std::string>>,id_t> poly_hc;
     struct Val { id_t n, d; }; std::deque<Val> vals; std::map<std::pair<id_t,id_t>,id_t> val_hc;
-    size_t expand_limit = 400;      // product of two sums is expanded only below this many term pairs
+    size_t expand_limit = 6000;      // product of two sums is expanded only below this many term pairs
     size_t max_poly_terms = 20000;  // guard against term explosion
     id_t mono1, poly0, poly1;
     Ctx() {
@@ -151,14 +151,31 @@ struct Ctx {
             else if (i==x.size() || y[j].first<x[i].first) { l.push_back(y[j]); ra.push_back(y[j]); j++; }
             else { int e=std::max(x[i].second,y[j].second); l.push_back({x[i].first,e}); if (e>x[i].second) ra.push_back({x[i].first,e-x[i].second}); if (e>y[j].second) rb.push_back({x[i].first,e-y[j].second}); i++; j++; } }
         fa=mono(ra); fb=mono(rb); return mono(l); }
-    id_t vadd(id_t a, id_t b, int sgn) { Val x=vals[a], y=vals[b]; if (x.d==y.d) return mkval(padd(x.n,y.n,sgn), x.d);
+    // semantic facts about values, valid for the value whatever its representation: non-negative by construction, and a
+    // sum-of-squares decomposition (value = sum v_i^2) used to strengthen "value <= 0" facts into v_i = 0
+    std::set<id_t> nn_vals; std::map<id_t,std::vector<id_t>> sos;
+    bool is_nn(id_t v) { mpq_class k; if (nn_vals.count(v)) return true; if (vis_const(v,k)) return k>=0; return poly_nonneg(vals[v].n) && mono_nonneg(vals[v].d); }
+    id_t vadd_raw(id_t a, id_t b, int sgn) { Val x=vals[a], y=vals[b]; if (x.d==y.d) return mkval(padd(x.n,y.n,sgn), x.d);
         id_t fa,fb; id_t L=mlcm(x.d,y.d,fa,fb); id_t n=padd(pmul_mono(x.n,fa,1), pmul_mono(y.n,fb,1), sgn); return mkval(n,L); }
-    id_t vmul(id_t a, id_t b) { Val x=vals[a], y=vals[b]; return mkval(pmul(x.n,y.n), mmul(x.d,y.d,nullptr)); }
+    id_t vadd(id_t a, id_t b, int sgn) { id_t r=vadd_raw(a,b,sgn);
+        if (sgn>0 && r!=a && r!=b && is_nn(a) && is_nn(b)) { nn_vals.insert(r); auto ia=sos.find(a), ib=sos.find(b); mpq_class k;
+            bool za=vis_const(a,k)&&k==0, zb=vis_const(b,k)&&k==0;
+            if ((ia!=sos.end()||za) && (ib!=sos.end()||zb) && !sos.count(r)) { std::vector<id_t> v; if (ia!=sos.end()) v=ia->second; if (ib!=sos.end()) v.insert(v.end(),ib->second.begin(),ib->second.end()); if (v.size()<=64) sos[r]=v; } }
+        return r; }
+    // if polynomial p is the definition of an opaque SUM atom that occurs in monomial d, cancel one power of it
+    bool cancel_sum(id_t p, id_t &d) { if (d==mono1 || polys[p].size()<2) return false; auto it=atom_hc.find(std::make_pair((int)Atom::SUM,p)); if (it==atom_hc.end()) return false; id_t at=it->second; MonoV m=monos[d]; for (size_t i=0;i<m.size();++i) if (m[i].first==at) { if (--m[i].second==0) m.erase(m.begin()+i); d=mono(m); return true; } return false; }
+    id_t vmul(id_t a, id_t b) { Val x=vals[a], y=vals[b];
+        id_t r;
+        if (cancel_sum(y.n,x.d)) r=mkval(x.n, mmul(x.d,y.d,nullptr));       // (n/(S d)) * (S/e)  with S the sum atom of y.n
+        else if (cancel_sum(x.n,y.d)) r=mkval(y.n, mmul(x.d,y.d,nullptr));
+        else r=mkval(pmul(x.n,y.n), mmul(x.d,y.d,nullptr));
+        if (a==b) { nn_vals.insert(r); if (!sos.count(r)) sos[r]=std::vector<id_t>{a}; } else if (is_nn(a) && is_nn(b)) nn_vals.insert(r);
+        return r; }
     // ---- cut points
     bool havoc_div=false; int nhavoc=0; struct Havoc { id_t var_val, a, b; }; std::vector<Havoc> havocs;
     std::vector<id_t> nz;      // nf value ids assumed non-zero on this path (every non-constant divisor)
     std::set<id_t> nz_set;
-    void assume_nz(id_t v) { if (nz_set.insert(v).second) nz.push_back(v); }
+    void assume_nz(id_t v);
     id_t vdiv(id_t a, id_t b) { mpq_class cb;
         if (vis_const(b,cb)) { if (cb==0) throw div_by_zero(); Val x=vals[a]; return mkval(pscale(x.n, mpq_class(1)/cb), x.d); }
         assume_nz(b);
@@ -177,7 +194,7 @@ struct Ctx {
         id_t at=atom(Atom::SQRT,nd,true); id_t n=poly(PolyV{{mono(MonoV{{at,1}}),mpq_class(1)}});
         if (!mono_nonneg(x.d)) { id_t ab=atom(Atom::ABS, poly(PolyV{{x.d,mpq_class(1)}}), true); return mkval(n, mono(MonoV{{ab,1}})); }
         return mkval(n,x.d); }
-    id_t vabs(id_t a) { Val x=vals[a]; mpq_class c; if (vis_const(a,c)) return vconst(::abs(c));
+    id_t vabs(id_t a) { Val x=vals[a]; mpq_class c; if (vis_const(a,c)) return vconst(::abs(c)); if (nn_vals.count(a)) return a;
         if (poly_nonneg(x.n) && mono_nonneg(x.d)) return a;
         PolyV neg=polys[x.n]; for (auto &t : neg) t.second=-t.second; id_t pn=poly(neg); if (poly_nonneg(pn) && mono_nonneg(x.d)) return val(pn,x.d);
         id_t full = x.d==mono1 ? x.n : pmul_mono(x.n,x.d,1);    // |n/d| = |n*d|/d^2
@@ -192,6 +209,7 @@ struct Ctx {
         switch (x.k) { case Atom::VAR: r=ev_var_atom(x.arg); break; case Atom::SUM: r=ev_poly(x.arg); break; case Atom::SQRT: r=std::sqrt(ev_poly(x.arg)); break; default: r=std::fabs(ev_poly(x.arg)); }
         return ev_memo[a]=r; }
     std::map<id_t,size_t> havoc_of_var;   // var index -> index in havocs
+    std::map<id_t,id_t> havoc_raw;        // raw DIV node -> cut variable index (this path)
     long double ev_var_atom(id_t v) { auto it=havoc_of_var.find(v); if (it!=havoc_of_var.end() && !(v<wit.size() && wit[v]==wit[v])) { const Havoc &h=havocs[it->second]; return ev(h.a)/ev(h.b); } return var_value(v); }
     long double ev_mono(id_t m) { long double r=1; for (auto &t : monos[m]) r*=std::pow(ev_atom(t.first),(long double)t.second); return r; }
     long double ev_poly(id_t p) { long double r=0; for (auto &t : polys[p]) r+=(long double)t.second.get_d()*ev_mono(t.first); return r; }
@@ -210,8 +228,10 @@ struct Ctx {
     bool concrete_mode=false;          // replay: every variable is a constant, no forking expected
     // events
     struct Event { std::string kind, stage; }; std::vector<Event> events; std::string stage; size_t npoison=0;
-    size_t nf_checks=0, nf_mismatch=0;
-    void reset_path() { pos=0; pc.clear(); nz.clear(); nz_set.clear(); }
+    size_t nf_checks=0, nf_mismatch=0, nf_skipped=0; size_t havoc_epoch=0;
+    std::vector<std::string> assumed;  // extra SMT assumptions of this path (hx::assume), already emitted text + their atoms
+    std::set<id_t> assumed_atoms;
+    void reset_path() { pos=0; pc.clear(); nz.clear(); nz_set.clear(); assumed.clear(); assumed_atoms.clear(); }
 };
 inline Ctx &ctx() { static Ctx c; return c; }
 
@@ -239,7 +259,9 @@ static_assert(std::is_trivially_copyable<sym>::value && sizeof(sym)==8, "sym mus
 
 inline sym binop(ROp op, sym a, sym b) { Ctx &c=ctx(); a=sym::checked(a); b=sym::checked(b); id_t nf;
     switch (op) { case R_ADD: nf=c.vadd(a.nf,b.nf,1); break; case R_SUB: nf=c.vadd(a.nf,b.nf,-1); break; case R_MUL: nf=c.vmul(a.nf,b.nf); break; default: nf=c.vdiv(a.nf,b.nf); }
-    return sym::mk(c.rnode(op,a.raw,b.raw), nf); }
+    id_t raw=c.rnode(op,a.raw,b.raw);
+    if (op==R_DIV && c.havoc_div && !c.havocs.empty() && c.havocs.back().var_val==nf) c.havoc_raw[raw]=c.atoms[c.monos[c.polys[c.vals[nf].n][0].first][0].first].arg;   // raw division node -> cut variable
+    return sym::mk(raw, nf); }
 inline sym operator+(sym a, sym b) { return binop(R_ADD,a,b); }
 inline sym operator-(sym a, sym b) { return binop(R_SUB,a,b); }
 inline sym operator*(sym a, sym b) { return binop(R_MUL,a,b); }
@@ -255,15 +277,26 @@ inline sym &operator/=(sym &a, sym b) { a=a/b; return a; }
 SYMX_MIX(+) SYMX_MIX(-) SYMX_MIX(*) SYMX_MIX(/)
 #define SYMX_MIXA(op) SYMX_ARITH_T inline sym &operator op(sym &a, T b) { return a op sym(b); }
 SYMX_MIXA(+=) SYMX_MIXA(-=) SYMX_MIXA(*=) SYMX_MIXA(/=)
-inline symbool mkcmp(int C, sym a, sym b, bool ng) { a=sym::checked(a); b=sym::checked(b); return symbool{C,a.nf,b.nf,ng}; }
+// k*sqrt(p) with k>0 rational: returns the value k^2 p
+inline bool pure_sqrt(id_t v, id_t &sq) { Ctx &c=ctx(); Ctx::Val x=c.vals[v]; if (x.d!=c.mono1) return false; const PolyV &p=c.polys[x.n]; if (p.size()!=1 || p[0].second<=0) return false; const MonoV &m=c.monos[p[0].first]; if (m.size()!=1 || m[0].second!=1 || c.atoms[m[0].first].k!=Atom::SQRT) return false;
+    mpq_class k2=p[0].second*p[0].second; id_t arg=c.atoms[m[0].first].arg; sq=c.val(c.pscale(arg,k2),c.mono1); return true; }
+// comparisons of norms with constants / other norms are rewritten without the radical:  sqrt(p) cmp c  <=>  p cmp c^2  (c >= 0, p >= 0)
+inline bool simplify_cmp(int cmp, id_t &a, id_t &b, bool &constant, bool &value) { Ctx &c=ctx(); id_t sa, sb; mpq_class k; constant=false;
+    bool pa=pure_sqrt(a,sa), pb=pure_sqrt(b,sb);
+    if (pa && pb) { a=sa; b=sb; return true; }
+    if (pa && c.vis_const(b,k)) { if (k<0) { constant=true; value=false; return true; } a=sa; b=c.vconst(k*k); return true; }          // sqrt >= 0 > k : a<b, a<=b, a==b all false
+    if (pb && c.vis_const(a,k)) { if (k<0) { constant=true; value=(cmp!=EQ); return true; } b=sb; a=c.vconst(k*k); return true; }     // k < 0 <= sqrt : k<b, k<=b true, k==b false
+    return false; }
+inline void Ctx::assume_nz(id_t v) { id_t sq; if (nz_set.insert(v).second) { if (pure_sqrt(v,sq)) { nz_set.insert(sq); nz.push_back(sq); } else nz.push_back(v); } }
+inline symbool mkcmp(int C, sym a, sym b, bool ng) { a=sym::checked(a); b=sym::checked(b); id_t x=a.nf, y=b.nf; bool cst=false, val=false; if (simplify_cmp(C,x,y,cst,val) && cst) { Ctx &c=ctx(); id_t z=c.vconst(0), o=c.vconst(1); return val ? symbool{LT,z,o,ng} : symbool{LT,o,z,ng}; } return symbool{C,x,y,ng}; }
 #define SYMX_CMP(op,C,swap,ng) \
   inline symbool operator op(sym a, sym b) { return swap ? mkcmp(C,b,a,ng) : mkcmp(C,a,b,ng); } \
   SYMX_ARITH_T inline symbool operator op(sym a, T b) { return a op sym(b); } \
   SYMX_ARITH_T inline symbool operator op(T a, sym b) { return sym(a) op b; }
 SYMX_CMP(==,EQ,false,false) SYMX_CMP(!=,EQ,false,true) SYMX_CMP(<,LT,false,false) SYMX_CMP(>,LT,true,false) SYMX_CMP(<=,LE,false,false) SYMX_CMP(>=,LE,true,false)
-inline sym abs(sym a) { Ctx &c=ctx(); a=sym::checked(a); return sym::mk(c.rnode(R_ABS,a.raw,0), c.vabs(a.nf)); }
+inline sym abs(sym a) { Ctx &c=ctx(); a=sym::checked(a); id_t v=c.vabs(a.nf); c.nn_vals.insert(v); return sym::mk(c.rnode(R_ABS,a.raw,0), v); }
 inline sym fabs(sym a) { return abs(a); }
-inline sym sqrt(sym a) { Ctx &c=ctx(); a=sym::checked(a); return sym::mk(c.rnode(R_SQRT,a.raw,0), c.vsqrt(a.nf)); }
+inline sym sqrt(sym a) { Ctx &c=ctx(); a=sym::checked(a); id_t v=c.vsqrt(a.nf); c.nn_vals.insert(v); return sym::mk(c.rnode(R_SQRT,a.raw,0), v); }
 inline sym real(sym a) { return a; }
 inline sym imag(sym) { return sym(0); }
 inline sym conj(sym a) { return a; }
@@ -280,6 +313,7 @@ inline bool decide(int cmp, id_t a, id_t b, bool &out) { // constant folding
     if (a==b) { out = (cmp!=LT); return true; }
     if (c.vis_const(a,x) && c.vis_const(b,y)) { out = cmp==EQ ? x==y : cmp==LT ? x<y : x<=y; return true; }
     id_t d=c.vadd(a,b,-1); if (c.vis_const(d,x)) { out = cmp==EQ ? x==0 : cmp==LT ? x<0 : x<=0; return true; }
+    if (cmp==EQ && c.nz_set.count(d)) { out=false; return true; }                  // a divisor / assumed non-zero value
     // syntactic sign: d = n/den with all-nonneg (or all-nonpos) terms
     Ctx::Val v=c.vals[d];
     if (c.mono_nonneg(v.d)) {
@@ -292,7 +326,7 @@ inline symbool::operator bool() const { Ctx &c=ctx(); bool r;
     if (c.concrete_mode) { long double u=c.ev(a), v=c.ev(b); bool at = cmp==EQ ? u==v : cmp==LT ? u<v : u<=v; c.pc.push_back({cmp,a,b,at}); return at^neg; }
     for (auto &p : c.pc) if (p.cmp==cmp && p.a==a && p.b==b) return p.truth^neg;     // already decided on this path
     bool at;   // truth of the un-negated relation on this path
-    if (c.pos < c.prefix.size()) at=c.prefix[c.pos];
+    if (c.pos < c.prefix.size()) { at=c.prefix[c.pos]; c.pos++; c.pc.push_back({cmp,a,b,at}); if (c.pos==c.prefix.size() && c.need_witness) c.acquire_witness(); return at^neg; }
     else { if (c.pos >= c.max_depth) throw too_deep();
         if (c.need_witness) c.acquire_witness();
         long double u=c.ev(a), v=c.ev(b); at = cmp==EQ ? u==v : cmp==LT ? u<v : u<=v; if (u!=u || v!=v) at=false;
@@ -329,8 +363,9 @@ inline std::string smt_den_nz(id_t v, Emit &e) { Ctx &c=ctx(); Ctx::Val x=c.vals
 
 // formula AST over nf values
 struct F { enum K {REL, AND, OR, NOT, TRUE_} k; int cmp; id_t a, b; std::vector<F> kids;
-    static F rel(int cmp, sym a, sym b) { a=sym::checked(a); b=sym::checked(b); F f; f.k=REL; f.cmp=cmp; f.a=a.nf; f.b=b.nf; return f; }
+    static F rel(int cmp, sym a, sym b);
     static F tt() { F f; f.k=TRUE_; f.cmp=0; f.a=f.b=0; return f; } };
+inline F F::rel(int cmp, sym a, sym b) { symbool sb=mkcmp(cmp,a,b,false); F f; f.k=REL; f.cmp=sb.cmp; f.a=sb.a; f.b=sb.b; return f; }
 inline F eq(sym a, sym b) { return F::rel(EQ,a,b); }
 inline F lt(sym a, sym b) { return F::rel(LT,a,b); }
 inline F le(sym a, sym b) { return F::rel(LE,a,b); }
@@ -360,7 +395,7 @@ inline bool eval_f_tol(const F &f, double tol) { switch (f.k) {
 
 // ------------------------------------------------------------------ solver process (z3 -in), one per harness process
 struct Solver {
-    pid_t pid=-1; int wfd=-1, rfd=-1; std::string buf; double total_s=0; size_t nq=0; std::string cmd="z3"; int timeout_ms=20000;
+    pid_t pid=-1; int wfd=-1, rfd=-1; std::string buf; double total_s=0; size_t nq=0; std::string cmd="z3"; int timeout_ms=20000; int feas_timeout_ms=1000;
     std::string dump_dir; size_t dump_max=0, dumped=0;
     void start() { int in[2], out[2]; if (pipe(in) || pipe(out)) throw std::runtime_error("pipe"); pid=fork();
         if (pid==0) { dup2(in[0],0); dup2(out[1],1); dup2(out[1],2); close(in[1]); close(out[0]); execlp(cmd.c_str(), cmd.c_str(), "-in", "-smt2", (char*)0); _exit(127); }
@@ -372,7 +407,8 @@ struct Solver {
     std::string ask(const std::string &script, bool &timed_out) { if (pid<0) start(); timed_out=false;
         if (!dump_dir.empty() && dumped<dump_max) { std::ofstream d(dump_dir+"/q"+std::to_string(getpid())+"_"+std::to_string(dumped++)+".smt2"); d<<script; }
         auto t0=std::chrono::steady_clock::now(); nq++;
-        send("(push)\n(set-option :timeout "+std::to_string(timeout_ms)+")\n"+script+"\n(pop)\n(echo \"<<done>>\")\n");
+        // one fresh solver context per query: after (push) z3 switches to its incremental core, which is far weaker on non-linear real arithmetic
+        send("(set-option :pp.decimal false)\n(set-option :timeout "+std::to_string(timeout_ms)+")\n"+script+"\n(reset)\n(echo \"<<done>>\")\n");
         std::string out; double limit = timeout_ms/1000.0*2.5 + 5;
         for (;;) { size_t p=buf.find("<<done>>"); if (p!=std::string::npos) { out=buf.substr(0,p); size_t q=buf.find('\n',p); buf = q==std::string::npos ? "" : buf.substr(q+1); break; }
             double el=std::chrono::duration<double>(std::chrono::steady_clock::now()-t0).count(); if (el>limit) { timed_out=true; stop(); break; }
@@ -414,11 +450,17 @@ inline Report &report() { static Report r; return r; }
 
 // assemble and run one query:  PC /\ side conditions /\ extra  ; returns "sat"/"unsat"/"unknown"
 struct QueryResult { std::string verdict; std::map<std::string,ModelVal> model; std::string raw; };
-inline QueryResult run_query(const std::vector<std::string> &asserts_in, Emit &e, bool want_model, const std::vector<std::string> &bool_names = {}) {
+inline QueryResult run_query(const std::vector<std::string> &asserts_in, Emit &e, bool want_model, const std::vector<std::string> &bool_names = {}, bool use_nz=true) {
     Ctx &c=ctx(); std::ostringstream o; std::vector<std::string> asserts=asserts_in;
+    for (id_t a : c.assumed_atoms) need_atom(a,e); for (auto &a : c.assumed) asserts.push_back(a);
     // path condition and non-zero divisors
-    for (auto &p : c.pc) { std::string r=smt_rel(p.cmp,p.a,p.b,e); asserts.push_back(p.truth ? r : "(not "+r+")"); asserts.push_back(smt_den_nz(p.a,e)); asserts.push_back(smt_den_nz(p.b,e)); }
-    for (id_t v : c.nz) asserts.push_back(smt_nonzero(v,e));
+    for (auto &p : c.pc) { std::string r=smt_rel(p.cmp,p.a,p.b,e); asserts.push_back(p.truth ? r : "(not "+r+")"); asserts.push_back(smt_den_nz(p.a,e)); asserts.push_back(smt_den_nz(p.b,e));
+        // implied lemmas (sound strengthening): values non-negative by construction; a sum of squares that is <= 0 has all components zero
+        id_t zero=c.vconst(0); mpq_class k;
+        for (id_t side : {p.a,p.b}) if (c.nn_vals.count(side) && !c.vis_const(side,k)) asserts.push_back(smt_rel(LE,zero,side,e));
+        id_t sv=(id_t)-1; if (p.cmp==EQ && p.truth) { if (p.b==zero) sv=p.a; else if (p.a==zero) sv=p.b; } else if (p.cmp==LE && p.truth && p.b==zero) sv=p.a; else if (p.cmp==LT && !p.truth && p.a==zero) sv=p.b;
+        if (sv!=(id_t)-1) { auto it=c.sos.find(sv); if (it!=c.sos.end()) for (id_t comp : it->second) asserts.push_back(smt_rel(EQ,comp,zero,e)); } }
+    if (use_nz) for (id_t v : c.nz) asserts.push_back(smt_nonzero(v,e));
     emit_defs(o,e);
     for (auto &b : bool_names) o<<"(declare-fun "<<b<<" () Bool)\n";
     for (auto &a : asserts) if (a!="true") o<<"(assert "<<a<<")\n";
@@ -439,7 +481,8 @@ inline QueryResult run_query(const std::vector<std::string> &asserts_in, Emit &e
 
 // post a proof obligation under the current path condition
 inline bool s_prove(const std::string &name, const F &f) {
-    Ctx &c=ctx(); Report &r=report(); r.obligations++;
+    Ctx &c=ctx(); Report &r=report(); r.obligations++; if (f.k==F::REL && f.cmp==EQ && f.a==f.b) r.trivial++;
+    else if (getenv("SYMX_DEBUG") && f.k==F::REL) { id_t d=c.vadd(f.a,f.b,-1); Emit e; std::cerr<<"nontrivial "<<name<<" prefix="; for (size_t i=0;i<c.pos&&i<c.prefix.size();++i) std::cerr<<(c.prefix[i]?'1':'0'); std::cerr<<" lhs terms="<<c.polys[c.vals[f.a].n].size()<<" den="<<smt_mono(c.vals[f.a].d)<<" rhs terms="<<c.polys[c.vals[f.b].n].size()<<" den="<<smt_mono(c.vals[f.b].d)<<" LHS="<<smt_poly(c.vals[f.a].n).substr(0,200)<<" diff terms="<<c.polys[c.vals[d].n].size()<<" diff="<<smt_poly(c.vals[d].n).substr(0,300)<<"\n"; }
     Emit e; std::vector<std::string> as; std::set<id_t> vs; f_dens(f,vs); for (id_t v : vs) as.push_back(smt_den_nz(v,e));
     as.push_back("(not "+smt_f(f,e)+")");
     if (r.samples.size()<6) { Emit e2; std::string s=smt_f(f,e2); if (s.size()>600) s=s.substr(0,600)+"..."; r.samples.push_back(name+": "+s); }
@@ -457,7 +500,8 @@ inline void s_prove_all(const std::string &name, const std::vector<F> &fs, size_
     for (size_t i=lo;i<hi;++i) { f_dens(fs[i],vs); if (!(fs[i].k==F::REL && fs[i].cmp==EQ && fs[i].a==fs[i].b)) alltriv=false; disj+=" (not "+smt_f(fs[i],e)+")"; } disj+=")";
     for (id_t v : vs) as.push_back(smt_den_nz(v,e)); as.push_back(disj);
     if (alltriv) r.trivial+=hi-lo;
-    QueryResult q=run_query(as,e,true);
+    int full_to=solver().timeout_ms; if (hi-lo>1) solver().timeout_ms=std::min(full_to, std::max(1500, full_to/6));   // batches get a short budget, singles the full one
+    QueryResult q=run_query(as,e,true); solver().timeout_ms=full_to;
     if (q.verdict=="unsat") { r.discharged+=hi-lo; return; }
     if (hi-lo>1) { size_t mid=(lo+hi)/2; s_prove_all(name,fs,lo,mid); s_prove_all(name,fs,mid,hi); return; }
     if (q.verdict=="unknown") { r.inconclusive.push_back(name+"["+std::to_string(lo)+"] (solver: unknown/timeout)"); return; }
@@ -467,6 +511,17 @@ inline void s_prove_all(const std::string &name, const std::vector<F> &fs, size_
 inline void s_prove_eq_vec(const std::string &name, const std::vector<sym> &a, const std::vector<sym> &b) {
     if (a.size()!=b.size()) { Violation v; v.obligation=name+" (size mismatch "+std::to_string(a.size())+" vs "+std::to_string(b.size())+")"; v.have_model=false; report().obligations++; report().violations.push_back(v); return; }
     std::vector<F> fs; for (size_t i=0;i<a.size();++i) fs.push_back(eq(a[i],b[i])); s_prove_all(name,fs); }
+// assume a formula for the rest of this path (a stated precondition of the property)
+inline void s_assume(const F &f) { Ctx &c=ctx(); Emit e; std::string t=smt_f(f,e); std::set<id_t> vs; f_dens(f,vs); for (id_t v : vs) { std::string d=smt_den_nz(v,e); if (d!="true") c.assumed.push_back(d); } c.assumed.push_back(t); for (id_t a : e.done) c.assumed_atoms.insert(a);
+    if (f.k==F::NOT && f.kids[0].k==F::REL && f.kids[0].cmp==EQ) { id_t d=c.vadd(f.kids[0].a,f.kids[0].b,-1); c.nz_set.insert(d); }   // known non-zero: avoids a spurious fork
+    if (!c.need_witness && !eval_f(f)) c.need_witness=true; }   // default witness violates the assumption: fetch a model at the next fork
+// every division performed so far on this path is guarded: the path condition alone implies divisor != 0
+inline size_t unguarded_divisions(std::string *which=nullptr) { Ctx &c=ctx(); size_t bad=0; for (id_t v : c.nz) { Emit e; std::vector<std::string> as; as.push_back("(not "+smt_nonzero(v,e)+")"); QueryResult q=run_query(as,e,false,{},false); if (q.verdict!="unsat") { bad++; if (which && which->empty()) { Emit e2; *which=smt_nonzero(v,e2); } } } return bad; }
+// coefficients of a value that is an affine form in input variables (denominator 1, every monomial a single variable): false otherwise
+inline bool linear_form(sym x, std::map<std::string,mpq_class> &coef, mpq_class &c0) { Ctx &c=ctx(); x=sym::checked(x); Ctx::Val v=c.vals[x.nf]; if (v.d!=c.mono1) return false; coef.clear(); c0=0;
+    for (auto &t : c.polys[v.n]) { const MonoV &m=c.monos[t.first]; if (m.empty()) { c0=t.second; continue; } if (m.size()!=1 || m[0].second!=1 || c.atoms[m[0].first].k!=Atom::VAR) return false; coef[c.vars[c.atoms[m[0].first].arg]]=t.second; } return true; }
+// replace a cut (havoc) variable by its definition a/b (one level); other values are returned unchanged
+inline sym unfold(sym s) { Ctx &c=ctx(); for (auto &h : c.havocs) if (h.var_val==s.nf) { bool hv=c.havoc_div; c.havoc_div=false; id_t nf=c.vdiv(h.a,h.b); c.havoc_div=hv; return sym::mk(s.raw,nf); } return s; }
 // structural (non-solver) check that must hold on every explored path
 inline void s_require(const std::string &name, bool ok, const std::string &detail="") { Report &r=report(); r.obligations++; if (ok) { r.discharged++; return; }
     Ctx &c=ctx(); Violation v; v.obligation=name; v.detail=detail; v.prefix=std::vector<bool>(c.prefix.begin(), c.prefix.begin()+std::min(c.pos,c.prefix.size())); v.have_model=false;
@@ -475,11 +530,33 @@ inline void s_require(const std::string &name, bool ok, const std::string &detai
     if (q.verdict=="unsat") { r.discharged++; return; }     // path infeasible: vacuous
     r.violations.push_back(v); }
 // normaliser validation: raw operation log vs normal form at the current witness
-inline void validate_nf(sym s) { Ctx &c=ctx(); if (!s.valid()) return; long double a=c.rev(s.raw), b=c.ev(s.nf); c.nf_checks++; if (a!=a || b!=b || std::isinf(a) || std::isinf(b)) return; long double sc=std::max<long double>(1, std::max(std::fabs(a),std::fabs(b))); if (std::fabs(a-b) > 1e-7L*sc) c.nf_mismatch++; }
+inline size_t &q_epoch() { static size_t e=0; return e; }
+// exact-rational evaluation (fails on irrational sqrt / division by zero)
+struct QEval { std::unordered_map<id_t,std::pair<bool,mpq_class>> rmemo, amemo; std::vector<double> wit_snapshot;
+    bool var_q(id_t v, mpq_class &o) { Ctx &c=ctx(); auto it=c.havoc_of_var.find(v); if (it!=c.havoc_of_var.end() && !(v<c.wit.size() && c.wit[v]==c.wit[v])) { const Ctx::Havoc h=c.havocs[it->second]; mpq_class a,b; if (!val_q(h.a,a) || !val_q(h.b,b) || b==0) return false; o=a/b; return true; } double d=(double)c.var_value(v); if (d!=d || std::isinf(d)) return false; o=mpq_class(d); return true; }
+    static bool qsqrt(const mpq_class &x, mpq_class &o) { if (x<0) return false; mpz_class n=x.get_num(), d=x.get_den(); if (!mpz_perfect_square_p(n.get_mpz_t()) || !mpz_perfect_square_p(d.get_mpz_t())) return false; mpz_class rn,rd; mpz_sqrt(rn.get_mpz_t(),n.get_mpz_t()); mpz_sqrt(rd.get_mpz_t(),d.get_mpz_t()); o=mpq_class(rn,rd); return true; }
+    bool raw_q(id_t r, mpq_class &o) { auto it=rmemo.find(r); if (it!=rmemo.end()) { o=it->second.second; return it->second.first; } Ctx &c=ctx(); const RNode x=c.rn[r]; mpq_class a,b; bool ok=true;
+        auto hr=c.havoc_raw.find(r); if (hr!=c.havoc_raw.end()) { ok=var_q(hr->second,o); rmemo[r]={ok,o}; return ok; }
+        switch (x.op) { case R_CONST: o=c.rconsts[x.a]; break; case R_VAR: case R_POISON: ok=var_q(x.a,o); break;
+            case R_SQRT: ok=raw_q(x.a,a) && qsqrt(a,o); break; case R_ABS: ok=raw_q(x.a,a); if (ok) o=::abs(a); break;
+            default: ok=raw_q(x.a,a) && raw_q(x.b,b); if (ok) { if (x.op==R_ADD) o=a+b; else if (x.op==R_SUB) o=a-b; else if (x.op==R_MUL) o=a*b; else { if (b==0) ok=false; else o=a/b; } } }
+        if (ok && mpz_sizeinbase(o.get_num().get_mpz_t(),2)+mpz_sizeinbase(o.get_den().get_mpz_t(),2) > 200000) ok=false;
+        rmemo[r]={ok,o}; return ok; }
+    bool atom_q(id_t a, mpq_class &o) { auto it=amemo.find(a); if (it!=amemo.end()) { o=it->second.second; return it->second.first; } Ctx &c=ctx(); const Atom x=c.atoms[a]; mpq_class t; bool ok=true;
+        switch (x.k) { case Atom::VAR: ok=var_q(x.arg,o); break; case Atom::SUM: ok=poly_q(x.arg,o); break; case Atom::SQRT: ok=poly_q(x.arg,t) && qsqrt(t,o); break; default: ok=poly_q(x.arg,t); if (ok) o=::abs(t); }
+        amemo[a]={ok,o}; return ok; }
+    bool mono_q(id_t m, mpq_class &o) { Ctx &c=ctx(); o=1; for (auto &t : c.monos[m]) { mpq_class a; if (!atom_q(t.first,a)) return false; for (int k=0;k<t.second;++k) o*=a; } return true; }
+    bool poly_q(id_t p, mpq_class &o) { Ctx &c=ctx(); o=0; for (auto &t : c.polys[p]) { mpq_class m; if (!mono_q(t.first,m)) return false; o+=t.second*m; } return true; }
+    bool val_q(id_t v, mpq_class &o) { Ctx &c=ctx(); mpq_class n,d; if (!poly_q(c.vals[v].n,n) || !mono_q(c.vals[v].d,d) || d==0) return false; o=n/d; return true; }
+};
+inline QEval &qeval() { static QEval q; return q; }
+// normaliser validation: the raw operation log and the normal form are evaluated in exact rational arithmetic at the current witness
+inline void validate_nf(sym s) { Ctx &c=ctx(); if (!s.valid()) return; QEval &q=qeval(); if (q.wit_snapshot.size()!=c.wit.size() || !std::equal(q.wit_snapshot.begin(),q.wit_snapshot.end(),c.wit.begin(),[](double a,double b){ return a==b || (a!=a && b!=b); }) || c.havoc_epoch!=q_epoch()) { q.rmemo.clear(); q.amemo.clear(); q.wit_snapshot=c.wit; q_epoch()=c.havoc_epoch; }
+    mpq_class a,b; if (!q.raw_q(s.raw,a) || !q.val_q(s.nf,b)) { c.nf_skipped++; return; } c.nf_checks++; if (a!=b) { c.nf_mismatch++; if (getenv("SYMX_DEBUG")) std::cerr<<"nf mismatch raw="<<a.get_d()<<" nf="<<b.get_d()<<" pos="<<c.pos<<"\n"; } }
 
 // ------------------------------------------------------------------ exploration driver
 struct infeasible : engine_stop { infeasible() : engine_stop{"infeasible prefix"} {} };
-inline void Ctx::acquire_witness() { need_witness=false; Emit e; QueryResult q=run_query({},e,true);
+inline void Ctx::acquire_witness() { need_witness=false; Emit e; int full=solver().timeout_ms; solver().timeout_ms=std::min(full,solver().feas_timeout_ms); QueryResult q=run_query({},e,true); solver().timeout_ms=full;
     if (q.verdict=="unsat") throw infeasible();
     if (q.verdict=="sat") { std::vector<double> w(vars.size(), std::nan("")); for (auto &kv : q.model) if (kv.second.rational) { auto it=var_ix.find(kv.first); if (it!=var_ix.end()) w[it->second]=kv.second.d; } set_witness(w); }
     else report().witness_unknown++; }
@@ -490,7 +567,7 @@ template<class Body> inline void explore(const std::string &casename, Body body,
     while (!todo.empty()) {
         if (npaths>=opt.max_paths) { r.paths_unexplored+=todo.size(); r.unexplored_cases.insert(casename); break; }
         Ctx::Work w=todo.back(); todo.pop_back();
-        c.reset_path(); c.prefix=w.prefix; c.work.clear(); c.set_witness(nowit); c.havocs.clear(); c.havoc_of_var.clear(); c.nhavoc=0; c.havoc_div=false; c.stage=casename;
+        c.reset_path(); c.havoc_epoch++; c.prefix=w.prefix; c.work.clear(); c.set_witness(nowit); c.havocs.clear(); c.havoc_of_var.clear(); c.havoc_raw.clear(); c.nhavoc=0; c.havoc_div=false; c.stage=casename;
         c.need_witness=!w.prefix.empty();
         bool stopped=false; std::string why;
         try { body(); }
@@ -498,7 +575,7 @@ template<class Body> inline void explore(const std::string &casename, Body body,
         if (stopped && why=="infeasible prefix") { r.paths_pruned++; continue; }   // nothing was queued beyond the prefix
         npaths++; r.paths++;
         if (stopped) { r.paths_stopped++; r.stops[why]++; }
-        if (opt.check_reach) { Emit e; QueryResult q=run_query({},e,false); if (q.verdict=="sat") r.reach_sat++; else if (q.verdict=="unsat") r.reach_unsat++; else r.reach_unknown++; }
+        if (opt.check_reach && w.prefix.empty()) { Emit e; int full=solver().timeout_ms; solver().timeout_ms=std::min(full,solver().feas_timeout_ms); QueryResult q=run_query({},e,false); solver().timeout_ms=full; if (q.verdict=="sat") r.reach_sat++; else if (q.verdict=="unsat") r.reach_unsat++; else r.reach_unknown++; }
         for (auto &nw : c.work) todo.push_back(nw);
     }
 }
